@@ -5,6 +5,7 @@ import (
 	"go/ast"
 	"go/types"
 	"sort"
+	"strconv"
 	"strings"
 
 	"ddcheck/core"
@@ -268,6 +269,20 @@ func C06(p *core.Program, r *core.Report) {
 					for _, side := range []ssa.Value{bo.X, bo.Y} {
 						if s, ok := core.ConstString(side); ok {
 							got[s] = true
+						}
+					}
+				}
+			}
+		}
+		// constants kept in a private table that the function reads
+		for _, in := range instrsOf(fn) {
+			if ld, ok := in.(*ssa.UnOp); ok {
+				if g, ok := ld.X.(*ssa.Global); ok {
+					if s, ok := p.GlobalConst(g); ok {
+						for _, q := range reQuoted.FindAllString(s, -1) {
+							if u, err := strconv.Unquote(q); err == nil {
+								got[u] = true
+							}
 						}
 					}
 				}
